@@ -12,6 +12,10 @@
 #include <cstdlib>
 #include <cstring>
 #include <cwchar>
+#include <cwctype>
+#include <cctype>
+#include <clocale>
+#include <ctime>
 #include <dlfcn.h>
 #include <pthread.h>
 #include <semaphore.h>
@@ -169,8 +173,18 @@ Cell *cell_of(uint64_t key, bool create) {
     }
     return nullptr;
 }
+// Process-wide state kept *inside* libc is invisible to the instrumentation.  Each family of libc calls that reads or writes such
+// state is modelled as an access to one pseudo location, so that header code which starts to call setlocale(), strtok(), rand(),
+// localeconv(), strerror(), the mb*() functions with their internal shift state ... from two threads is a reported race, while
+// the calls the unchanged headers make (snprintf, strto*) are only reads of the locale and therefore race with nothing.
+enum { LS_LOCALE = 0, LS_STRTOK, LS_RAND, LS_STRERROR, LS_TM, LS_ENV, LS_MBSTATE, LS_LOCALECONV, LS__COUNT };
+alignas(8) char g_libc_state[LS__COUNT][8];
+const char *const LS_NAMES[LS__COUNT] = {"the process locale (setlocale)", "strtok's saved position", "rand's generator state", "strerror's message buffer",
+                                         "the static struct tm / asctime buffer", "the process environment", "the internal multibyte shift state (mb*/wc* with a null mbstate_t)",
+                                         "localeconv's static result"};
 void describe(const void *addr, char *out, size_t n) {
     const char *a = (const char *)addr;
+    if (a >= &g_libc_state[0][0] && a < &g_libc_state[0][0] + sizeof g_libc_state) { std::snprintf(out, n, "process-wide state inside libc: %s", LS_NAMES[(a - &g_libc_state[0][0]) / 8]); return; }
     for (int k = 0; k <= G.nthreads; k++) if (G.t[k].stack_lo && a >= G.t[k].stack_lo && a < G.t[k].stack_hi) { std::snprintf(out, n, "stack of thread %d", k); return; }
     Dl_info di;
     if (dladdr(addr, &di) && di.dli_sname) { std::snprintf(out, n, "static storage: %s+%ld", di.dli_sname, (long)(a - (const char *)di.dli_saddr)); return; }
@@ -217,6 +231,7 @@ void on_access(const void *addr, size_t size, bool write) {
     }
     maybe_switch();
 }
+void libc_state(int which, bool write) { on_access(g_libc_state[which], 8, write); }
 void clear_range(const void *p, size_t n) {
     if (!G.active || !G.shadow) return;
     uintptr_t a = (uintptr_t)p & ~(uintptr_t)7, e = (uintptr_t)p + n;
@@ -439,16 +454,49 @@ int __wrap_snprintf(char *buf, size_t n, const char *fmt, ...) {
     va_list ap; va_start(ap, fmt);
     int r = vsnprintf(buf, n, fmt, ap);
     va_end(ap);
+    libc_state(LS_LOCALE, false);
     on_access(fmt, strlen(fmt) + 1, false);
     if (buf && n) { size_t w = r < 0 ? 0 : ((size_t)r + 1 < n ? (size_t)r + 1 : n); if (w) on_access(buf, w, true); }
     return r;
 }
 #define WRAP_STRTO(name, T, ...)                                                                                  \
     T __wrap_##name(const char *s, char **end, ##__VA_ARGS__);
-long __wrap_strtol(const char *s, char **e, int b) { char *le; long v = strtol(s, &le, b); on_access(s, (size_t)(le - s) + 1, false); if (e) *e = le; return v; }
-unsigned long __wrap_strtoul(const char *s, char **e, int b) { char *le; unsigned long v = strtoul(s, &le, b); on_access(s, (size_t)(le - s) + 1, false); if (e) *e = le; return v; }
-long long __wrap_strtoll(const char *s, char **e, int b) { char *le; long long v = strtoll(s, &le, b); on_access(s, (size_t)(le - s) + 1, false); if (e) *e = le; return v; }
-unsigned long long __wrap_strtoull(const char *s, char **e, int b) { char *le; unsigned long long v = strtoull(s, &le, b); on_access(s, (size_t)(le - s) + 1, false); if (e) *e = le; return v; }
-float __wrap_strtof(const char *s, char **e) { char *le; float v = strtof(s, &le); on_access(s, (size_t)(le - s) + 1, false); if (e) *e = le; return v; }
-double __wrap_strtod(const char *s, char **e) { char *le; double v = strtod(s, &le); on_access(s, (size_t)(le - s) + 1, false); if (e) *e = le; return v; }
+long __wrap_strtol(const char *s, char **e, int b) { libc_state(LS_LOCALE, false); char *le; long v = strtol(s, &le, b); on_access(s, (size_t)(le - s) + 1, false); if (e) *e = le; return v; }
+unsigned long __wrap_strtoul(const char *s, char **e, int b) { libc_state(LS_LOCALE, false); char *le; unsigned long v = strtoul(s, &le, b); on_access(s, (size_t)(le - s) + 1, false); if (e) *e = le; return v; }
+long long __wrap_strtoll(const char *s, char **e, int b) { libc_state(LS_LOCALE, false); char *le; long long v = strtoll(s, &le, b); on_access(s, (size_t)(le - s) + 1, false); if (e) *e = le; return v; }
+unsigned long long __wrap_strtoull(const char *s, char **e, int b) { libc_state(LS_LOCALE, false); char *le; unsigned long long v = strtoull(s, &le, b); on_access(s, (size_t)(le - s) + 1, false); if (e) *e = le; return v; }
+float __wrap_strtof(const char *s, char **e) { libc_state(LS_LOCALE, false); char *le; float v = strtof(s, &le); on_access(s, (size_t)(le - s) + 1, false); if (e) *e = le; return v; }
+double __wrap_strtod(const char *s, char **e) { libc_state(LS_LOCALE, false); char *le; double v = strtod(s, &le); on_access(s, (size_t)(le - s) + 1, false); if (e) *e = le; return v; }
+
+// ---- libc functions with process-wide state (none is called by the unchanged headers; see the comment at g_libc_state)
+char *__wrap_setlocale(int cat, const char *loc) { libc_state(LS_LOCALE, loc != nullptr); return setlocale(cat, loc); }
+struct lconv *__wrap_localeconv(void) { libc_state(LS_LOCALE, false); libc_state(LS_LOCALECONV, true); return localeconv(); }
+char *__wrap_strtok(char *s, const char *d) { libc_state(LS_STRTOK, true); return strtok(s, d); }
+int __wrap_rand(void) { libc_state(LS_RAND, true); return rand(); }
+void __wrap_srand(unsigned v) { libc_state(LS_RAND, true); srand(v); }
+char *__wrap_strerror(int e) { libc_state(LS_STRERROR, true); return strerror(e); }
+struct tm *__wrap_gmtime(const time_t *t) { libc_state(LS_TM, true); return gmtime(t); }
+struct tm *__wrap_localtime(const time_t *t) { libc_state(LS_TM, true); libc_state(LS_ENV, false); return localtime(t); }
+char *__wrap_asctime(const struct tm *t) { libc_state(LS_TM, true); return asctime(t); }
+char *__wrap_ctime(const time_t *t) { libc_state(LS_TM, true); return ctime(t); }
+char *__wrap_getenv(const char *n) { libc_state(LS_ENV, false); return getenv(n); }
+int __wrap_setenv(const char *n, const char *v, int o) { libc_state(LS_ENV, true); return setenv(n, v, o); }
+int __wrap_putenv(char *s) { libc_state(LS_ENV, true); return putenv(s); }
+int __wrap_unsetenv(const char *n) { libc_state(LS_ENV, true); return unsetenv(n); }
+int __wrap_mblen(const char *s, size_t n) { libc_state(LS_LOCALE, false); libc_state(LS_MBSTATE, true); return mblen(s, n); }
+int __wrap_mbtowc(wchar_t *w, const char *s, size_t n) { libc_state(LS_LOCALE, false); libc_state(LS_MBSTATE, true); return mbtowc(w, s, n); }
+int __wrap_wctomb(char *s, wchar_t w) { libc_state(LS_LOCALE, false); libc_state(LS_MBSTATE, true); return wctomb(s, w); }
+size_t __wrap_mbstowcs(wchar_t *d, const char *s, size_t n) { libc_state(LS_LOCALE, false); return mbstowcs(d, s, n); }
+size_t __wrap_wcstombs(char *d, const wchar_t *s, size_t n) { libc_state(LS_LOCALE, false); return wcstombs(d, s, n); }
+size_t __wrap_mbrtowc(wchar_t *w, const char *s, size_t n, mbstate_t *ps) { libc_state(LS_LOCALE, false); if (!ps) libc_state(LS_MBSTATE, true); return mbrtowc(w, s, n, ps); }
+size_t __wrap_wcrtomb(char *s, wchar_t w, mbstate_t *ps) { libc_state(LS_LOCALE, false); if (!ps) libc_state(LS_MBSTATE, true); return wcrtomb(s, w, ps); }
+size_t __wrap_mbrlen(const char *s, size_t n, mbstate_t *ps) { libc_state(LS_LOCALE, false); if (!ps) libc_state(LS_MBSTATE, true); return mbrlen(s, n, ps); }
+size_t __wrap_mbsrtowcs(wchar_t *d, const char **s, size_t n, mbstate_t *ps) { libc_state(LS_LOCALE, false); if (!ps) libc_state(LS_MBSTATE, true); return mbsrtowcs(d, s, n, ps); }
+size_t __wrap_wcsrtombs(char *d, const wchar_t **s, size_t n, mbstate_t *ps) { libc_state(LS_LOCALE, false); if (!ps) libc_state(LS_MBSTATE, true); return wcsrtombs(d, s, n, ps); }
+int __wrap_toupper(int c) { libc_state(LS_LOCALE, false); return toupper(c); }
+int __wrap_tolower(int c) { libc_state(LS_LOCALE, false); return tolower(c); }
+wint_t __wrap_towupper(wint_t c) { libc_state(LS_LOCALE, false); return towupper(c); }
+wint_t __wrap_towlower(wint_t c) { libc_state(LS_LOCALE, false); return towlower(c); }
+int __wrap_sprintf(char *buf, const char *fmt, ...) { va_list ap; va_start(ap, fmt); int r = vsprintf(buf, fmt, ap); va_end(ap); libc_state(LS_LOCALE, false); if (r >= 0) on_access(buf, (size_t)r + 1, true); return r; }
+int __wrap_vsnprintf(char *buf, size_t n, const char *fmt, va_list ap) { int r = vsnprintf(buf, n, fmt, ap); libc_state(LS_LOCALE, false); if (buf && n) { size_t w = r < 0 ? 0 : ((size_t)r + 1 < n ? (size_t)r + 1 : n); if (w) on_access(buf, w, true); } return r; }
 } // extern "C"
